@@ -181,6 +181,8 @@ def _run_base(ctx):
             sdefs = local_defs(si)
             st = [s for s in body if isinstance(s, ast.Assign) and isinstance(s.targets[0], ast.Subscript) and dotted(s.targets[0].value) == 'notebook_differs']
             subk = loops[0].target.elts[1].id if isinstance(loops[0].target, ast.Tuple) and len(loops[0].target.elts) == 2 and isinstance(loops[0].target.elts[1], ast.Name) else None
+            if st and isinstance(st[0].value, ast.Call) and ('func', NB + ':diff_ignore_keys') not in cg.resolve(st[0].value.func, si):
+                raise AnalysisError('set_notebook_diff_ignores: the stored differ is not built by %s:diff_ignore_keys (constructor not recognised)' % NB)
             ok = bool(st) and isinstance(st[0].value, ast.Call) and ('func', NB + ':diff_ignore_keys') in cg.resolve(st[0].value.func, si) and len(st[0].value.args) >= 2 and \
                 depends_on(si, st[0].value.args[0], lambda x: isinstance(x, ast.Subscript) and dotted(x.value) == 'notebook_differs', sdefs) is not None and \
                 (subk is None or depends_on(si, st[0].value.args[1], lambda x: isinstance(x, ast.Name) and x.id == subk, sdefs) is not None)
